@@ -978,18 +978,214 @@ func mapKeyStream(r *vh.Rng, n int, maxLen int, sum *vh.Summary) {
 	}
 }
 
+// ---- narrow-destination stream ----
+//
+// The sender's struct has fields the receiver's struct lacks: the decoder swallows
+// them (nextValueBytes: recording + skip). Whatever the swallowed bytes define for
+// later use (binc symbols with AsSymbols on; the reader's cursors and last byte in
+// every format) must not depend on how the Reader delivers the bytes.
+
+type nsSrc struct {
+	Extra  map[string]int   `codec:"a_extra"`
+	Scores map[string]int   `codec:"b_scores"`
+	Names  map[string]mkVal `codec:"c_names"`
+	Labels map[mkStr]string `codec:"d_labels"`
+	Tail   []string         `codec:"e_tail"`
+}
+type nsDst1 struct { // lacks the first field
+	Scores map[string]int   `codec:"b_scores"`
+	Names  map[string]mkVal `codec:"c_names"`
+	Labels map[mkStr]string `codec:"d_labels"`
+	Tail   []string         `codec:"e_tail"`
+}
+type nsDst2 struct { // lacks the first two
+	Names  map[string]mkVal `codec:"c_names"`
+	Labels map[mkStr]string `codec:"d_labels"`
+	Tail   []string         `codec:"e_tail"`
+}
+type nsDst3 struct { // lacks fields in the middle
+	Extra map[string]int `codec:"a_extra"`
+	Tail  []string       `codec:"e_tail"`
+}
+type nsDst4 struct { // lacks the first and the third
+	Scores map[string]int   `codec:"b_scores"`
+	Labels map[mkStr]string `codec:"d_labels"`
+}
+
+var nsDsts = []reflect.Type{reflect.TypeOf(nsDst1{}), reflect.TypeOf(nsDst2{}), reflect.TypeOf(nsDst3{}), reflect.TypeOf(nsDst4{}),
+	reflect.TypeOf(codec.Raw(nil)), reflect.TypeOf(map[string]codec.Raw(nil))}
+
+func narrowStream(r *vh.Rng, n int, maxOff int, sum *vh.Summary) {
+	pool := []string{"Alexandria", "k", "beta-key", "x1", "a_extra", "S", "N", "Constantinople-on-the-Bosphorus"}
+	for i := 0; i < n; i++ {
+		format := vh.Formats[r.Intn(len(vh.Formats))]
+		if i%2 == 0 {
+			format = "binc"
+		}
+		o := vh.Opts{}
+		if i >= 4 {
+			o = vh.RandEncOpts(r, format)
+			delete(o, "StructToArray")
+		}
+		if format == "binc" && i%4 != 3 {
+			o["AsSymbols"] = 1
+		}
+		keys := append([]string(nil), pool...)
+		for k := 0; k < 2; k++ {
+			keys = append(keys, vh.RandString(r, vh.ValOpts{MaxLen: 6}))
+		}
+		pick := func() string { return keys[r.Intn(len(keys))] }
+		var src nsSrc
+		if i < 2 { // the smallest instance: one shared key
+			src = nsSrc{Extra: map[string]int{"Alexandria": 1}, Scores: map[string]int{"Alexandria": 2}}
+		} else {
+			src = nsSrc{Extra: map[string]int{}, Scores: map[string]int{}, Names: map[string]mkVal{}, Labels: map[mkStr]string{}}
+			for k := r.Intn(4); k >= 0; k-- {
+				src.Extra[pick()] = r.Intn(300)
+			}
+			for k := r.Intn(4); k >= 0; k-- {
+				src.Scores[pick()] = r.Intn(70000)
+			}
+			for k := r.Intn(3); k > 0; k-- {
+				src.Names[pick()] = mkVal{N: r.Intn(9), S: pick()}
+			}
+			for k := r.Intn(3); k > 0; k-- {
+				src.Labels[mkStr(pick())] = pick()
+			}
+			for k := r.Intn(3); k > 0; k-- {
+				src.Tail = append(src.Tail, pick())
+			}
+		}
+		var b []byte
+		if err := codec.NewEncoderBytes(&b, vh.NewHandle(format, o)).Encode(&src); err != nil {
+			sum.Count("narrow.encode-error", "")
+			continue
+		}
+		t := nsDsts[r.Intn(len(nsDsts))]
+		if i < 2 {
+			t = nsDsts[0]
+		}
+		mkHandle := func(rbs int) codec.Handle {
+			oo := vh.Opts{}
+			for k, x := range o {
+				oo[k] = x
+			}
+			oo["ReaderBufferSize"] = rbs
+			return vh.NewHandle(format, oo)
+		}
+		h0 := mkHandle(0)
+		want := decodeWith(func() *codec.Decoder { return codec.NewDecoderBytes(b, h0) }, t)
+		if want.err != nil || want.hung {
+			sum.Count("narrow.bytes-decode-error", "")
+			continue
+		}
+		cj := map[string]interface{}{"format": format, "opts": o.String(), "source": "main.nsSrc", "destination": t.String(), "bytes": vh.Hex(b), "seed_index": i}
+		var schedules [][]resp
+		schedules = append(schedules, nil)
+		for _, k := range []int{1, 2, 3, 5, 7, 16} {
+			fixed := make([]resp, 0, len(b)/k+1)
+			for x := 0; x < len(b); x += k {
+				fixed = append(fixed, resp{k, x%3 == 0})
+			}
+			schedules = append(schedules, fixed)
+		}
+		var chunks []resp
+		for k := 0; k < len(b)+4; k++ {
+			if r.Chance(1, 4) {
+				for j := 1 + r.Intn(15); j > 0; j-- {
+					chunks = append(chunks, resp{0, false})
+				}
+			}
+			chunks = append(chunks, resp{1 + r.Intn(6), r.Bool()})
+		}
+		schedules = append(schedules, chunks)
+		step := 1
+		if len(b) > maxOff {
+			step = 1 + len(b)/maxOff
+		}
+		for k := 1; k < len(b); k += step {
+			schedules = append(schedules, []resp{{k, false}})
+		}
+		runs, failed := 0, false
+		for _, rbs := range []int{0, 1, 2, 7, 16, 64, 4096} {
+			h := mkHandle(rbs)
+			for si, sc := range schedules {
+				rbr := (si+i)%3 == 0
+				runs++
+				got := decodeWith(func() *codec.Decoder { rd, _ := mkReader(b, sc, io.EOF, rbr); return codec.NewDecoder(rd, h) }, t)
+				what := ""
+				switch {
+				case got.hung:
+					what = "Decode from the reader did not return"
+				case got.err != nil:
+					what = "Decode from the reader fails where Decode from []byte succeeds"
+				case !vh.DeepEq(got.v, want.v, vh.EqOpts{}):
+					what = "Decode from the reader gives a different value than Decode from []byte"
+				case got.n != want.n:
+					what = "NumBytesRead differs between reader and []byte"
+				}
+				if what != "" {
+					c2 := map[string]interface{}{"ReaderBufferSize": rbs, "bytereader": rbr}
+					for k, x := range cj {
+						c2[k] = x
+					}
+					var ks []interface{}
+					for _, x := range sc {
+						ks = append(ks, x.k)
+					}
+					if len(ks) > 40 {
+						ks = ks[:40]
+					}
+					c2["chunks_then_rest"] = ks
+					if got.err == nil && !got.hung {
+						c2["io_value"] = fmt.Sprintf("%+v", got.v.Interface())
+						c2["bytes_value"] = fmt.Sprintf("%+v", want.v.Interface())
+					}
+					bm := "unbuffered"
+					if rbs > 0 {
+						bm = "buffered"
+					}
+					sym := ""
+					if o["AsSymbols"] == 1 {
+						sym = "+symbols"
+					}
+					sum.FailC("narrow", fmt.Sprintf("%s%s:destination-lacks-fields:%s", format, sym, bm), what, c2)
+					failed = true
+					if got.hung {
+						sum.Print()
+						os.Exit(0)
+					}
+					break
+				}
+			}
+			if failed {
+				break
+			}
+		}
+		key := fmt.Sprintf("%s/%v/%s/len%d", format, o["AsSymbols"], t.String(), len(b)/8)
+		sum.Count("narrow."+format, key)
+		sum.Evaluations += runs - 1
+		sum.Dist["narrow.reader-runs"] += runs
+		if i < 1 {
+			sum.Sample(cj)
+		}
+	}
+}
+
 func main() {
 	nUnit := flag.Int("unit", 600, "unit cases (model-compared)")
 	nAPI := flag.Int("api", 150, "api cases")
 	nMapKey := flag.Int("mapkeys", 40, "map-key cases (every one-/two-split schedule x 6 buffer sizes)")
 	mapKeyLen := flag.Int("mapkeylen", 40, "longest encoding used by the map-key stream")
+	nNarrow := flag.Int("narrow", 60, "narrow-destination cases (sender struct has fields the receiver lacks)")
 	maxOff := flag.Int("offsets", 48, "inputs up to this length get a chunk boundary / truncation at every offset")
 	cases := flag.String("cases", "/verif/build/c03/cases", "directory for the model case files")
 	flag.Parse()
 	r := vh.NewRng(vh.SeedFromEnv())
-	sum := vh.NewSummary("unit: random protocol-respecting decReaderI op lists x ReaderBufferSize {0,1,2,3,7,16,64,256,300} x MaxInitLen x plain/ByteReader x reader scripts (1-byte, chunks, zero-length runs below and above 16, data with EOF, terminal EOF or error); non-trivial = has a script or >= 8 bytes; distinct by (mode, reader shape, buffer size, last op, error class, Read calls, numread/4). api: 5 formats x random type/value/options x target (typed, Raw, interface{}) x ReaderBufferSize x reader shapes (all-at-once, 1-byte, random chunks with empty reads, data with EOF, two chunks at every offset, iotest One/Half/DataErr/Timeout readers, plain and ByteReader) x truncation at every offset with 4 endings; distinct by (format, target, kind, length/8). mapkey: 5 formats x string-keyed map types without a fast path (struct, named, pointer, array, nested-map values, named and interface keys, inside slices/structs) x every one-split, two-split and fixed-size chunk schedule of encodings up to -mapkeylen bytes x ReaderBufferSize {1,2,7,16,64,4096}, plain and ByteReader; distinct by (format, type, length/4)")
+	sum := vh.NewSummary("unit: random protocol-respecting decReaderI op lists x ReaderBufferSize {0,1,2,3,7,16,64,256,300} x MaxInitLen x plain/ByteReader x reader scripts (1-byte, chunks, zero-length runs below and above 16, data with EOF, terminal EOF or error); non-trivial = has a script or >= 8 bytes; distinct by (mode, reader shape, buffer size, last op, error class, Read calls, numread/4). api: 5 formats x random type/value/options x target (typed, Raw, interface{}) x ReaderBufferSize x reader shapes (all-at-once, 1-byte, random chunks with empty reads, data with EOF, two chunks at every offset, iotest One/Half/DataErr/Timeout readers, plain and ByteReader) x truncation at every offset with 4 endings; distinct by (format, target, kind, length/8). mapkey: 5 formats x string-keyed map types without a fast path (struct, named, pointer, array, nested-map values, named and interface keys, inside slices/structs) x every one-split, two-split and fixed-size chunk schedule of encodings up to -mapkeylen bytes x ReaderBufferSize {1,2,7,16,64,4096}, plain and ByteReader; distinct by (format, type, length/4). narrow: 5 formats (binc half the time, AsSymbols on) x a struct with string-keyed maps sharing keys in several fields decoded into structs that lack the first / first two / middle fields, into Raw and into maps of Raw x ReaderBufferSize {0,1,2,7,16,64,4096} x all-at-once, fixed chunks 1,2,3,5,7,16, random chunks with empty reads, a split at every offset, plain and ByteReader; distinct by (format, symbols, destination, length/8)")
 	unitStream(r.Fork(), *nUnit, *cases, sum)
 	apiStream(r.Fork(), *nAPI, *maxOff, sum)
 	mapKeyStream(r.Fork(), *nMapKey, *mapKeyLen, sum)
+	narrowStream(r.Fork(), *nNarrow, *maxOff, sum)
 	sum.Print()
 }
